@@ -329,7 +329,11 @@ def run_check(engine, prop, tier, level="exploration", runs_quick=400, budget_qu
 	# workers that were lost in an endless loop inside native code left their verdict behind
 	import shutil
 	hang_recs = []
-	for fn in sorted(os.listdir(_HANG_DIR)):
+	try:
+		left = sorted(os.listdir(_HANG_DIR))
+	except OSError:   # the scratch directory was removed under us (a /tmp cleaner): nothing was left there
+		left = []
+	for fn in left:
 		try:
 			with open(os.path.join(_HANG_DIR, fn)) as f:
 				h = json.load(f)
